@@ -33,6 +33,9 @@ func (m *Machine) unop(fr *frame, instr *ssa.UnOp, x value) value {
 			if p == nil {
 				panic(rtPanic("invalid memory address or nil pointer dereference"))
 			}
+			if ps, bad := (*p).(poison); bad {
+				panic(unsupported("read of a value the partial package initialisation could not compute: " + ps.why))
+			}
 			return copyVal(*p)
 		case symElem:
 			return m.selectElem(p.elems, p.idx)
